@@ -280,7 +280,7 @@ def abs_obj(v, ids, stack=(), private_depth=None):
         if private_depth is not None and not isinstance(v, (list, tuple)):
             return ["other", describe(type(v)), False]
         try:
-            it = iter(v)
+            it = iter(sorted(v, key=str)) if FACTS.get("sets_sorted") and isinstance(v, (set, frozenset)) else iter(v)
         except TypeError:
             return ["other", describe(v), True]          # e.g. a 0-d array: iteration raises
         return ["seq", [abs_obj(x, ids, stack, private_depth) for x in it]]
